@@ -186,7 +186,11 @@ func c17(c *Ctx) {
 				s = cfg.Devices[r.Pick(len(cfg.Devices))].ID
 			}
 			d.Reset()
-			d.Script = func(adapter.Invocation) ([][]byte, error) { rep := okReply(ak, s); rep[8] = 1; return [][]byte{rep}, nil }
+			d.Script = func(adapter.Invocation) ([][]byte, error) {
+				rep := okReply(ak, s)
+				rep[8] = 1
+				return [][]byte{rep}, nil
+			}
 			m1 := map[uint8]bool{1: true, 2: false, 3: true, 4: false}
 			t1 := fmt.Sprintf("%#v", m1)
 			u.ActivateKeypads(s, m1)
